@@ -126,7 +126,13 @@ def run(ck):
         threads = [t0 if same else gen_symprog(r, pool) for _ in range(K)]
         sp_reqs.append({"op": "symprog", "threads": threads, "seed": r.below(1 << 30), "reps": 3 if quick else 6,
                         "mode": "as_str" if i % 4 == 3 else "atomic"})
-    if rcm == 0 and mexe:
+    rp_req = None
+    if ck.replay:
+        rp_req = json.load(open(ck.replay)).get("replay", {}).get("request")
+        if rp_req is not None:
+            sp_reqs = [rp_req] if rp_req.get("op") == "symprog" else []
+            n_sp = len(sp_reqs)
+    if rcm == 0 and mexe and sp_reqs:
         lines = []
         for rq in sp_reqs:
             for t in rq["threads"]:
@@ -221,6 +227,11 @@ def run(ck):
         reqs.append({"K": 16, "identical": False, "names": [s["name"] for s in js], "macro_only": True,
                      "req": {"op": "jobs", "jobs": [C15.obs_req(s, 4) for s in js], "seed": r.below(1 << 30), "reps": 6}})
 
+    if rp_req is not None:
+        reqs = []
+        if rp_req.get("op") == "jobs":
+            reqs = [{"K": len(rp_req["jobs"]), "identical": False, "names": [j.get("tag") for j in rp_req["jobs"]], "macro_only": False, "req": rp_req}]
+
     def do_job(i):
         t = time.time()
         res, rcx = run_one(cexe, reqs[i]["req"], 60)
@@ -281,7 +292,7 @@ def run(ck):
                 viol.append(("MIMIUM_CURRENT_MACRO_FILE is left set after concurrent compilations finished", {"value": val, "request": q["req"]}, False))
         else:
             viol.append(("MIMIUM_CURRENT_MACRO_FILE is left set after concurrent compilations of programs without macros", {"value": val, "request": q["req"]}, False))
-    for s in [answers[0], answers[len(answers) // 2], answers[-1]]:
+    for s in ([answers[0], answers[len(answers) // 2], answers[-1]] if answers else []):
         i, res, rcx, dt = s
         ck.sample({"K": reqs[i]["K"], "identical_sources": reqs[i]["identical"], "sources": reqs[i]["names"][:4], "seconds": round(dt, 1),
                    "threads_equal_solo": res is not None})
